@@ -566,6 +566,13 @@ def analyse(job, impl, model, enc_modelled):
                 info["frames"] = F
                 if m.strip() != "frames=%d" % F:
                     probs.append(Problem(job, "corr", "frames", "frames after open", k, out, m))
+                # C04 / C05 on the implementation's own transcript (round 5): N frames written re-open as N <= F < N + samplesperblock
+                if not job.stored() and job.calls:
+                    nw = sum(c[2] for c in job.calls)
+                    spb = 320 if job.cont in ("wav", "w64") else 160
+                    if not (nw <= F < nw + spb):
+                        probs.append(Problem(job, "pred", "frames", "%d frames written, the file re-opens with %d frames (not in [N, N + %d))" % (nw, F, spb), k,
+                                             expect="frames=%d " % (((nw + spb - 1) // spb) * spb)))
                 if a.get("seekable") != "0":
                     probs.append(Problem(job, "pred", "seek", "a GSM handle reports seekable=%s" % a.get("seekable"), k, expect="seekable=0"))
         elif t[0] == "w":
@@ -749,7 +756,7 @@ def cseek_stream(ctx, templates, nfiles):
 
 
 CATS = {
-    "C05": {"count", "position", "crash", "open"},
+    "C05": {"count", "frames", "position", "crash", "open"},
     "C06": {"stream", "position", "seek", "crash", "open"},
     "C07": {"partition", "count", "crash", "open"},
 }
